@@ -287,6 +287,11 @@ def run_history(hist, paste_threshold=8, final_drain=True, pre=None, nostart=Fal
                 st["reached"].clear()
                 if st["done"] and st in paused:
                     paused.remove(st)
+                if st["done"] and not st.get("fin"):
+                    # the callback has returned to its caller: from here on its event counts as handed over, whether or
+                    # not the callback wrote a wake-up byte
+                    st["fin"] = True
+                    rec.append({"k": "tsfin", "id": st["id"]})
 
             def perform(a):
                 k = a["k"]
